@@ -25,8 +25,11 @@ GEN_SPEC = {"imports": ["From God Require Import C09.GenEnv."], "items": [
     {"kind": "calls", "file": "lib/load/adaptiveshedder.go", "func": "promise.Fail", "as": "fail_calls"},
     {"kind": "calls", "file": "lib/load/adaptiveshedder.go", "func": "adaptiveShedder.systemOverloaded", "as": "overloaded_calls"},
     {"kind": "calls", "file": "lib/load/adaptiveshedder.go", "func": "adaptiveShedder.stillHot", "as": "stillhot_calls"},
+    {"kind": "calls", "file": "api/handler/sheddinghandler.go", "func": "SheddingHandler", "as": "shedhandler_calls"},
+    {"kind": "calls", "file": "rpc/internal/serverinterceptors/sheddinginterceptor.go", "func": "UnarySheddingInterceptor",
+     "as": "shedint_calls"},
 ]}
-COQ_FILES = ["theories/C09/Props.v", "theories/C09/Link.v", "theories/C09/WProofs.v", "theories/C09/SProofs.v"]
+COQ_FILES = ["theories/C09/Props.v", "theories/C09/Link.v", "theories/C09/WProofs.v", "theories/C09/SProofs.v", "theories/C09/Integ.v"]
 QUICK_N = 400
 THOROUGH_N = 6000
 SHARD = 100
@@ -35,6 +38,10 @@ RULE = ("60% window histories: size 1-50 (mostly 1-6), interval in {1,7,100,250m
         "40% shedder traces: window/buckets in {5s/50,1s/10,1s/4,300ms/3,2s/1}, threshold 900 (or 0/500), 30-120 ops "
         "Allow(cpu)/Pass/Fail/advance steering concurrency levels 3-40 and overload phases, advances around the bucket "
         "and the 1 s cool-off boundaries; 3% malformed (size<1, interval 0, buckets 0, window<buckets, double completion); "
+        "12% integration call lists (5-40 requests through UnarySheddingInterceptor inside UnaryCrashInterceptor, or through "
+        "SheddingHandler with RecoverHandler inside / without it, over a recording shedder: 15% scripted drops; outcomes ok, "
+        "status.Error(0..16), context.DeadlineExceeded, wrapped deadline, panic(string|error|DeadlineExceeded); shapes "
+        "WriteHeader(c), bare Write, nothing, WriteHeader+Write+Flush+Write, panic, Write-then-panic); "
         "non-trivial = window: a Reduce after an Add and an advance >= interval; shedder: at least one Pass and one drop "
         "or overload reading; distinct = distinct canonical case JSON")
 TRUSTED = ["float64 arithmetic of the Go build (amd64, no FMA contraction) = IEEE-754 binary64 = Coq PrimFloat; "
@@ -122,10 +129,34 @@ def gen_shedder(rng):
     return {"kind": "s", "window": window, "buckets": buckets, "thr": thr, "ops": ops}
 
 
+HTTP_STATUS = [200, 200, 204, 301, 404, 499, 500, 502, 503, 503, 504, 599]
+
+
+def gen_integration(rng):
+    """requests through UnarySheddingInterceptor (inside the crash guard) or SheddingHandler (RecoverHandler inside, or a
+    customised chain without it) over a recording shedder: scripted drop, then one handler outcome / response shape"""
+    http = rng.random() < 0.5
+    calls = []
+    for _ in range(rng.randint(5, 40)):
+        drop = 1 if rng.random() < 0.15 else 0
+        k = rng.randrange(7)
+        if http:
+            arg = rng.choice(HTTP_STATUS) if k in (0, 3) else 0
+        else:
+            arg = rng.randrange(17) if k == 1 else 0
+        calls.append([drop, k, arg])
+    c = {"kind": "i", "http": http, "calls": calls}
+    if http:
+        c["guard"] = rng.random() < 0.6
+    return c
+
+
 def generate(rng, tier, n):
     cases = []
     for _ in range(n):
-        if rng.random() < 0.6:
+        if rng.random() < 0.12:
+            cases.append(gen_integration(rng))
+        elif rng.random() < 0.6:
             cases.append(gen_window(rng, small=(tier == "search" and rng.random() < 0.7)))
         else:
             cases.append(gen_shedder(rng))
@@ -140,8 +171,11 @@ def drive(cases, tier):
     """window cases -> lib/collection driver, shedder cases -> lib/load driver; observations merged in order."""
     logs = []
     obs = [None] * len(cases)
-    for kind, pkg, run in (("w", "./lib/collection", "^TestVerifDriverRW$"), ("s", "./lib/load", "^TestVerifDriver$")):
-        idx = [i for i, c in enumerate(cases) if c["kind"] == kind]
+    for kind, pkg, run in (("w", "./lib/collection", "^TestVerifDriverRW$"), ("s", "./lib/load", "^TestVerifDriver$"),
+                           ("ir", "./rpc/internal/serverinterceptors", "^TestVerifDriverC09$"),
+                           ("ih", "./api/handler", "^TestVerifDriverC09$")):
+        idx = [i for i, c in enumerate(cases)
+               if c["kind"] == kind or (c["kind"] == "i" and kind == ("ih" if c["http"] else "ir"))]
         if not idx:
             continue
         o, lg = run_driver(pkg, [cases[i] for i in idx], name="C09%s_%s" % (kind, tier), run=run)
@@ -158,6 +192,10 @@ def _bucket(b):
 
 
 def encode(case, obs):
+    if case["kind"] == "i":
+        calls = [cpair(cbool(c[0] == 1), cnat(c[1]), cZ(c[2])) for c in case["calls"]]
+        rows = [clist([cZ(v) for v in r]) for r in obs.get("rows", [])]
+        return "ICase %s %s %s %s" % (cbool(case["http"]), cbool(bool(case.get("guard"))), clist(calls), clist(rows))
     if case["kind"] == "w":
         ops = []
         for op in case["ops"]:
@@ -191,6 +229,8 @@ def encode(case, obs):
 
 
 def nontrivial(case, obs):
+    if case["kind"] == "i":
+        return any(c[0] == 0 and c[1] >= 4 for c in case["calls"]) and any(c[0] == 1 for c in case["calls"])
     if case["kind"] == "w":
         if case["size"] < 1 or case["interval"] < 1:
             return False
@@ -210,6 +250,11 @@ def nontrivial(case, obs):
 
 def bucket(case, obs):
     out = ["kind:" + case["kind"]]
+    if case["kind"] == "i":
+        out[0] = "kind:i-" + ("http" + ("+recover" if case.get("guard") else "-bare") if case["http"] else "rpc")
+        for c in case["calls"]:
+            out.append("i:%s%d" % ("drop" if c[0] else "out", c[1]))
+        return out
     if case["kind"] == "w":
         out.append("size:%s" % ("<1" if case["size"] < 1 else case["size"] if case["size"] <= 6 else "7-50"))
         out.append("ignore:%s" % case["ignore"])
@@ -240,6 +285,10 @@ def bucket(case, obs):
 
 
 def explain(case, obs):
+    if case["kind"] == "i":
+        return ("the shedding handler/interceptor did not report exactly once for a request it let in (in-flight != 0 after "
+                "the call, or passes + fails != let in), or reported Fail/Pass against its documented classes, or a panic "
+                "escaped the RPC chain (C09.Exec.i_spec / c09_integration_reports_once)")
     if case["kind"] == "w":
         return ("a Reduce handed buckets that are not the per-bucket (sum,count) of the adds of the last `size` bucket "
                 "intervals (C09.Exec.w_spec_ok / c09_window_exact): an expired add was seen, a recent one lost or counted twice")
